@@ -673,7 +673,13 @@ def canon(case, name, v):
 
 
 def err_code(e):
-    return int(e.code) if isinstance(e, (ReadErr, FuncErr)) else f"{type(e).__name__}: {str(e)[:120]}"
+    """the exception that reached the caller: the harness's own exceptions carry an integer code (the exception OBJECT the task
+    raised must arrive, not one rebuilt from its message)"""
+    if isinstance(e, (ReadErr, FuncErr)):
+        if isinstance(e.code, int) and not isinstance(e.code, bool):
+            return int(e.code)
+        return f"{type(e).__name__} rebuilt: code {str(e.code)[:100]!r} instead of the integer the task raised it with"
+    return f"{type(e).__name__}: {str(e)[:120]}"
 
 
 # ----------------------------------------------------------------------------- running a case
